@@ -348,6 +348,68 @@ def _validator_helpers(ck, ex):
     return out
 
 
+READER = "_read_non_versioned_link"
+_DIRECT_READS = ("open", "read_text", "read_bytes", "FileIO")
+
+
+def pointer_reader_names(ck):
+    """Names of the data source's methods whose value is the CONTENT of a pointer file: the inventory's reader, and any method
+    that reads a pointer file itself (by the role of the path it opens)."""
+    got = getattr(ck, "_c08_reader_names", None)
+    if got is None:
+        got = {READER}
+        cls = ck.repo.cls(FSDS)
+        for m in cls.methods.values():
+            src = {A.call_attr(c) for c in A.body_calls(m.node)}
+            if src & set(_DIRECT_READS) and m.name != "exists_nonversioned" and _pointer_reads(ck, FA(ck, m)):
+                got.add(m.name)
+        ck._c08_reader_names = got
+    return got
+
+
+def _structural_pointer_read(x) -> bool:
+    """An (expanded) call that opens / reads the link path itself: open(<link path>), <link path>.read_text(), io.FileIO(<link path>)."""
+    if not (isinstance(x, ast.Call) and A.call_attr(x) in _DIRECT_READS):
+        return False
+    if A.call_attr(x) == "open":
+        mode = A.arg_or_kw(x, 0 if _is_path_method(x) else 1, "mode")
+        m = A.const_str(mode) if mode is not None else "r"
+        if m is None or any(ch in m for ch in "wax+"):
+            return False
+    if A.call_attr(x) == "FileIO" and _fileio_writes(x):
+        return False
+    p_ = open_path(x) if A.call_attr(x) in ("open", "FileIO") else (x.func.value if isinstance(x.func, ast.Attribute) else None)
+    p_ = _strip_path_wrappers(p_) if p_ is not None else None
+    return isinstance(p_, ast.Call) and A.call_attr(p_) == LINK_PATH
+
+
+def pointer_content_calls(ck, fa):
+    """The calls of `fa` whose value is (a handle on) the content of a pointer file."""
+    names = pointer_reader_names(ck)
+    direct = {id(c) for (c, _k, _e, _n) in _pointer_reads(ck, fa)} if any(A.call_attr(c) in _DIRECT_READS for c in fa.calls()) else set()
+    return [c for c in fa.calls() if fa.nodes(c) and ((A.call_attr(c) in names and not isinstance(c.func, ast.Name)) or id(c) in direct)]
+
+
+def pointer_content_deps(ck, fa):
+    """Dependency tokens that mean "derived from the content of a pointer file" in `fa`."""
+    cc = pointer_content_calls(ck, fa)
+    out = set()
+    for c in cc:
+        nm = A.call_attr(c)
+        if nm in pointer_reader_names(ck) or all(any(k is c2 for c2 in cc) for k in fa.calls(nm)):
+            out.add("call:" + nm)
+    return out
+
+
+def is_pointer_content_call(ck, fa, x) -> bool:
+    """`x` (a node of fa, or an expanded copy) is a call whose value is the content of a pointer file."""
+    if not isinstance(x, ast.Call):
+        return False
+    if A.call_attr(x) in pointer_reader_names(ck) and not isinstance(x.func, ast.Name):
+        return True
+    return any(x is c for c in pointer_content_calls(ck, fa)) or _structural_pointer_read(x)
+
+
 def check_pointer_trust(ck):
     R = "C08.R2"
     ck.rule(R, "pointers are never trusted half-written: either the pointer name is only ever the destination of an "
@@ -364,19 +426,21 @@ def check_pointer_trust(ck):
     # a helper belongs to the validity test only if nothing else uses it
     unit_quals = {ex.fi.qual} | {q for q in helpers if callers_of(q) <= ({ex.fi.qual} | set(helpers))}
     unit = [ex] + [FA(ck, helpers[q]) for q in sorted(helpers) if q in unit_quals]
-    rd = [c for u in unit for c in u.calls("_read_non_versioned_link")]
+    rd = [c for u in unit for c in pointer_content_calls(ck, u)]
     validated = False
     why = "exists_nonversioned does not read the pointer"
     if rd:
         # the value derived from the pointer content must be tested with is_file()
         isf, weak = [], []
         for u in unit:
-            isf += [c for c in u.calls("is_file") if "call:_read_non_versioned_link" in u.deps(A.call_recv(c))]
-            isf += [c for c in u.calls("isfile") if c.args and "call:_read_non_versioned_link" in u.deps(c.args[0])]
+            toks = pointer_content_deps(ck, u) or {"call:" + READER}
+            from_ptr = lambda e, u=u, toks=toks: bool(toks & set(u.deps(e)))
+            isf += [c for c in u.calls("is_file") if from_ptr(A.call_recv(c))]
+            isf += [c for c in u.calls("isfile") if c.args and from_ptr(c.args[0])]
             weak += [c for c in u.calls("exists") + u.calls("lexists") if A.call_recv(c) is not None and not (A.call_dotted(c) or "").startswith("os.path")
-                     and "call:_read_non_versioned_link" in u.deps(A.call_recv(c))]
+                     and from_ptr(A.call_recv(c))]
             weak += [c for c in u.calls("exists") + u.calls("lexists") if (A.call_dotted(c) or "").startswith("os.path") and c.args
-                     and "call:_read_non_versioned_link" in u.deps(c.args[0])]
+                     and from_ptr(c.args[0])]
         validated = bool(isf) and not weak
         why = "the designated path is only tested with exists(): an empty or truncated pointer designates Path('') = '.', which exists" if weak else \
             "the designated path is never tested to be a regular file"
@@ -414,10 +478,33 @@ def check_pointer_trust(ck):
                   "new consumer of pointer content at %s is neither an opener nor validated" % fi.qual, f2.where(call))
 
 
+def _caught_oserror_atom(h, counter=None):
+    """atom function: the object handler `h` caught (under its name) is an OSError -- isinstance against OSError or one of its bases
+    holds, against a builtin class unrelated to OSError fails, against a subclass of OSError is open."""
+    import builtins
+
+    def atom(e):
+        if h.name is not None and isinstance(e, ast.Call) and isinstance(e.func, ast.Name) and e.func.id == "isinstance" and len(e.args) == 2 \
+                and isinstance(e.args[0], ast.Name) and e.args[0].id == h.name:
+            ts = e.args[1].elts if isinstance(e.args[1], ast.Tuple) else [e.args[1]]
+            names = [(A.norm(t) or "").split(".")[-1] for t in ts]
+            if any(n in OSERROR_NAMES for n in names):
+                if counter is not None:
+                    counter[0] += 1
+                return True
+            if all(isinstance(getattr(builtins, n, None), type) and not issubclass(getattr(builtins, n), OSError) for n in names):
+                if counter is not None:
+                    counter[0] += 1
+                return False
+        return None
+    return atom
+
+
 def _after_handler(fa, handler):
     """What the function returns on the paths that run through an exception handler:
     ([(leaf value expr, node)], [raise statements reachable from the handler before any return])."""
-    A0 = Assume(fa, lambda e: None)
+    # ... for an I/O error: a test of the class of what was caught (`if not isinstance(e, OSError): raise`) is decided
+    A0 = Assume(fa, _caught_oserror_atom(handler))
     vals, raises = [], []
     for hn in [n.id for n in fa.cfg.nodes if n.kind == "except" and n.ast is handler and n.id in fa.cfg.reachable_nodes()]:
         IN = A0.flow({hn: A0.handler_seed(hn)})
@@ -978,6 +1065,63 @@ def _guarding_wrapper(ck, fi):
     return None
 
 
+def _sorting_handler_absorbs_oserror(ck, fa, h) -> bool:
+    """`h` catches everything under a name, tests the class of what it caught (isinstance) and, when that is an OSError, raises
+    nothing: decided by what remains reachable inside the handler under the assumption that the caught object is an OSError."""
+    if h.name is None or h.type is None or A.norm(h.type) not in ("Exception", "BaseException"):
+        return False
+    decided = [0]
+    asm = Assume(fa, _caught_oserror_atom(h, decided))
+    raises = [n for st in h.body for n in A.walk_local(st) if isinstance(n, ast.Raise)]
+    live = [r for r in raises if asm.live(r)]
+    return bool(raises) and not live and decided[0] > 0
+
+
+def _handler_yields_none(fa, handler) -> bool:
+    """In a generator: every path from the handler reaches, before anything else is yielded, raised or the generator ends, a
+    `yield None` -- the slot of the item at hand is filled with "absent"."""
+    cfg = fa.cfg
+    ynodes = {}
+    for n in cfg.nodes:
+        if n.kind == "stmt" and n.ast is not None and n.id in cfg.reachable_nodes():
+            ys = [x for x in A.walk_local(n.ast) if isinstance(x, (ast.Yield, ast.YieldFrom))]
+            if ys:
+                ynodes[n.id] = ys
+    hns = [n.id for n in cfg.nodes if n.kind == "except" and n.ast is handler and n.id in cfg.reachable_nodes()]
+    if not hns:
+        return False
+    asm = Assume(fa, _caught_oserror_atom(handler))
+    live = asm.reach(hns, removed=list(ynodes))
+    if cfg.exit in live or getattr(cfg, "raise_exit", None) in live:
+        return False
+    if any(cfg.node(i).kind == "stmt" and isinstance(cfg.node(i).ast, (ast.Raise, ast.Return)) for i in live):
+        return False
+    first = {d for i in live for (d, l) in cfg.succ[i] if d in ynodes and asm.edge_ok(i, d, l)}
+    return bool(first) and all(len(ynodes[d]) == 1 and isinstance(ynodes[d][0], ast.Yield)
+                               and (ynodes[d][0].value is None or A.is_none(ynodes[d][0].value)) for d in first)
+
+
+def _returns_all_of(fa, A0, call) -> bool:
+    """The function returns exactly what the generator call yields: list(call) / tuple(call) / [*call] / [x for x in call], directly or
+    through plain temporaries."""
+    def whole(e, n, dep=4):
+        while isinstance(e, ast.Call) and isinstance(e.func, ast.Name) and e.func.id in ("list", "tuple") and len(e.args) == 1 and not e.keywords:
+            e = e.args[0]
+        if e is call:
+            return True
+        if isinstance(e, (ast.List, ast.Tuple)) and len(e.elts) == 1 and isinstance(e.elts[0], ast.Starred):
+            return whole(e.elts[0].value, n, dep)
+        if isinstance(e, (ast.ListComp, ast.GeneratorExp)) and len(e.generators) == 1 and not e.generators[0].ifs \
+                and isinstance(e.elt, ast.Name) and isinstance(e.generators[0].target, ast.Name) and e.elt.id == e.generators[0].target.id:
+            return whole(e.generators[0].iter, n, dep)
+        if isinstance(e, ast.Name) and dep > 0:
+            leaves = A0.cases(e, n, fa.df.IN)
+            return bool(leaves) and not any(x is e for (x, _) in leaves) and all(whole(x, m, dep - 1) for (x, m) in leaves)
+        return False
+    rets = [(r, i) for r in fa.returns() if r.value is not None for i in fa.nodes(r)]
+    return bool(rets) and all(whole(x, m) for (r, i) in rets for (x, m) in A0.cases(r.value, i, fa.df.IN))
+
+
 def check_recovery(ck):
     R = "C08.R3"
     ck.rule(R, "absorb and recover: I/O errors are absorbed around memoize in the local runner, around the read in "
@@ -990,6 +1134,11 @@ def check_recovery(ck):
         trys = _try_around(rl, c)
         hs = [h for t in trys for h in t.handlers if _handler_covers_oserror(h) and A.norm(h.type) not in ("Exception", "BaseException")]
         ok = bool(hs) and all(not any(isinstance(n, ast.Raise) for n in A.walk_local(h)) for h in hs[:1])
+        if not hs:
+            # a catch-all handler that sorts what it caught by class and hands everything but I/O errors on (guard-clause spelling of
+            # the typed handler: `except Exception as e: if not isinstance(e, IOError): raise` ...)
+            hs = [h for t in trys for h in t.handlers if _sorting_handler_absorbs_oserror(ck, rl, h)][:1]
+            ok = bool(hs)
         if not hs and (_suppressed(rl, c) or _swallowing_manager(ck, rl, c) is not None):
             # the `with` spelling of the handler: contextlib.suppress(IOError) / a manager of the module whose __exit__
             # swallows an OSError — control continues after the `with`
@@ -1052,7 +1201,12 @@ def check_recovery(ck):
                 for c in fh.calls("_read_memento"):
                     hs = [x for t in _try_around(fh, c) for x in t.handlers if _handler_covers_oserror(x)]
                     ok = False
-                    if hs:
+                    if hs and any(isinstance(x, (ast.Yield, ast.YieldFrom)) for x in A.walk_body(fh.node)):
+                        # a generator of answers, one per call asked for: after the handler the next thing yielded is None, and
+                        # the caller returns everything the generator yields, in order
+                        ok = _handler_yields_none(fh, hs[0]) and _returns_all_of(gm, A0, call)
+                        _handler_cannot_fail(ck, R, fh, hs[0], c, "while reading a memento")
+                    elif hs:
                         vals, raises = _after_handler(fh, hs[0])
                         ok = bool(vals) and not raises and all(A.is_none(e) for (e, n, IN) in vals)
                         appended = [a for a in gm.calls("append") if len(a.args) == 1 and gm.nodes(a)
@@ -1467,7 +1621,7 @@ class _ReadFails(Assume):
             nd = self.fa.cfg.node(node_id)
             plain = self._plain = getattr(self, "_plain", None) or Assume(self.fa, self.atom)
             self._rd[node_id] = nd.ast is not None and nd.kind in ("stmt", "test", "with", "for") and any(
-                isinstance(x, ast.Call) and A.call_attr(x) == "_read_non_versioned_link" and sub_live(plain, x, node_id)
+                is_pointer_content_call(self.fa.ck, self.fa, x) and sub_live(plain, x, node_id)
                 for x in A.walk_local(nd.ast))
         return self._rd[node_id]
 
@@ -1507,7 +1661,12 @@ def check_readers_validate(ck):
     ck.rule(R, "readers validate: exists_nonversioned tests the pointer and the path it contains; presence queries "
                "of the metadata source go through it", 3)
     ex = FA(ck, FSDS + ".exists_nonversioned")
-    rd = ex.calls("_read_non_versioned_link")
+    rd = pointer_content_calls(ck, ex)
+    handles = set()
+    for c_ in rd:
+        w_ = ex.pm.get(c_)
+        if isinstance(w_, ast.withitem) and isinstance(w_.optional_vars, ast.Name):
+            handles.add(w_.optional_vars.id)
     # decided on the answers: (1) no pointer file => every answer is False; (2) pointer present but the path it
     # contains fails its test => every answer is False — whether the tests are if-statements, guard clauses or
     # a conditional expression
@@ -1555,7 +1714,7 @@ def check_readers_validate(ck):
 
     def is_target(e):
         sub = subject(e)
-        return sub is not None and any(isinstance(x, ast.Call) and A.call_attr(x) == "_read_non_versioned_link" for x in ast.walk(sub))
+        return sub is not None and any(is_pointer_content_call(ck, ex, x) or (isinstance(x, ast.Name) and x.id in handles) for x in ast.walk(sub))
 
     def no_pointer(e):
         if is_ptr(e):
@@ -1571,7 +1730,7 @@ def check_readers_validate(ck):
             return False
         return None
 
-    rd = rd or [c for q in sorted(helpers) for c in FA(ck, helpers[q]).calls("_read_non_versioned_link")]
+    rd = rd or [c for q in sorted(helpers) for c in pointer_content_calls(ck, FA(ck, helpers[q]))]
     ok = answers(ex, no_pointer) is False and answers(ex, bad_target) is False and hits["ptr"] > 0 and hits["target"] > 0 and bool(rd)
     ck.ob(R, ex.key(None, "two-level"), ok, "tests the pointer, then the designated path" if ok else
           "exists_nonversioned no longer checks both the pointer and the path it designates", ex.where())
@@ -1792,6 +1951,225 @@ def check_complete_or_raise(ck):
                   fa.where(faults[0][0]) if faults else fa.where(c))
 
 
+# ---- R8: a damaged pointer cannot raise a decoding error --------------------------------------------------------------
+TOLERANT_ERRORS = {"replace", "ignore", "surrogateescape", "backslashreplace"}      # error handlers under which DEcoding never raises
+TOTAL_ENCODINGS = {"latin-1", "latin1", "latin_1", "iso-8859-1", "iso8859-1", "l1", "cp437"}   # every byte string decodes
+DECODE_ERROR_NAMES = {"UnicodeDecodeError", "UnicodeError", "ValueError", "Exception", "BaseException"}
+_HANDLE_READS = ("read", "readline", "readlines", "readall", "__next__")
+
+
+def _const_text(fa, e, at):
+    """The string constant `e` stands for (a literal, a local bound to one, a module / class constant), or None."""
+    if e is None:
+        return None
+    if A.const_str(e) is not None:
+        return A.const_str(e)
+    try:
+        x = fa.expand(e, at)
+    except Exception:  # noqa - an expression the expander cannot place
+        x = e
+    if A.const_str(x) is not None:
+        return A.const_str(x)
+    nm = x.id if isinstance(x, ast.Name) else (x.attr if isinstance(x, ast.Attribute) and isinstance(x.value, ast.Name) and x.value.id in ("self", "cls") else None)
+    if nm is not None and not (isinstance(x, ast.Name) and fa.df.is_local(nm)):
+        v = fa.fi.module.assigns.get(nm)
+        if v is None and fa.fi.cls is not None:
+            for st in fa.fi.cls.node.body:
+                if isinstance(st, ast.Assign) and any(isinstance(t, ast.Name) and t.id == nm for t in st.targets):
+                    v = st.value
+        return A.const_str(v) if v is not None else None
+    return None
+
+
+def _is_path_method(c):
+    return isinstance(c.func, ast.Attribute) and (A.dotted(c.func.value) or "") not in ("io", "os", "builtins", "codecs")
+
+
+def _star_kw(ck, fa, call, name):
+    """The value a `**table` argument of `call` gives the keyword `name`, when the table is a literal (dict display / dict(...)) that
+    the expander can see; a table it cannot see makes the call undecidable."""
+    for k in call.keywords:
+        if k.arg is not None:
+            continue
+        try:
+            t = fa.expand(k.value, fa.nodes(call)[0])
+        except Exception:  # noqa - an expression the expander cannot place
+            t = k.value
+        if isinstance(t, ast.Dict) and all(A.const_str(x) is not None for x in t.keys if x is not None) and None not in t.keys:
+            for (kk, vv) in zip(t.keys, t.values):
+                if A.const_str(kk) == name:
+                    return vv
+        elif isinstance(t, ast.Call) and isinstance(t.func, ast.Name) and t.func.id == "dict" and not t.args and all(x.arg for x in t.keywords):
+            for x in t.keywords:
+                if x.arg == name:
+                    return x.value
+        else:
+            ck.need(False, "%s: the keyword table `**%s` of a pointer read cannot be read off the source" % (fa.qual, A.short(k.value, 30)))
+    return None
+
+
+def _pointer_reads(ck, fa):
+    """Read sites of a pointer file in one function: [(call, 'text' | 'bytes', errors expr or None, encoding expr or None)]."""
+    out = []
+    for c in fa.calls():
+        if not fa.nodes(c):
+            continue
+        nm = A.call_attr(c)
+        at = fa.nodes(c)[0]
+        if nm == "open":
+            pm_ = _is_path_method(c)
+            if (A.call_dotted(c) or "") == "os.open":
+                continue
+            mode = A.arg_or_kw(c, 0 if pm_ else 1, "mode")
+            m = _const_text(fa, mode, at) if mode is not None else "r"
+            if m is not None and any(ch in m for ch in "wax+"):
+                continue
+            is_codecs = (A.call_dotted(c) or "").startswith("codecs.")
+            enc = A.arg_or_kw(c, 2 if (pm_ or is_codecs) else 3, "encoding") or _star_kw(ck, fa, c, "encoding")
+            err = A.arg_or_kw(c, 3 if (pm_ or is_codecs) else 4, "errors") or _star_kw(ck, fa, c, "errors")
+            kind = "bytes" if (m is not None and "b" in m and not (is_codecs and enc is not None)) else "text"
+            path = open_path(c)
+        elif nm == "read_text" and isinstance(c.func, ast.Attribute):
+            kind, enc, err, path = "text", A.arg_or_kw(c, 0, "encoding") or _star_kw(ck, fa, c, "encoding"), \
+                A.arg_or_kw(c, 1, "errors") or _star_kw(ck, fa, c, "errors"), c.func.value
+        elif nm == "read_bytes" and isinstance(c.func, ast.Attribute):
+            kind, enc, err, path = "bytes", None, None, c.func.value
+        elif nm == "FileIO" and not _fileio_writes(c):
+            kind, enc, err, path = "bytes", None, None, (c.args[0] if c.args else A.kwarg(c, "file"))
+        else:
+            continue
+        if path is not None and path_role(fa, path, at) == "pointer":
+            out.append((c, kind, err, enc))
+    return out
+
+
+def _decoders(fa):
+    """Calls that turn bytes into text: [(call, errors expr or None, encoding expr or None)]; os.fsdecode never raises on POSIX
+    (surrogateescape) and is not listed."""
+    out = []
+    for c in fa.calls():
+        if not fa.nodes(c):
+            continue
+        nm = A.call_attr(c)
+        d = A.call_dotted(c) or ""
+        if nm == "decode" and isinstance(c.func, ast.Attribute) and not d.startswith("codecs."):
+            out.append((c, A.arg_or_kw(c, 1, "errors"), A.arg_or_kw(c, 0, "encoding")))
+        elif d == "codecs.decode":
+            out.append((c, A.arg_or_kw(c, 2, "errors"), A.arg_or_kw(c, 1, "encoding")))
+        elif isinstance(c.func, ast.Name) and c.func.id == "str" and (len(c.args) >= 2 or A.kwarg(c, "encoding") is not None or A.kwarg(c, "errors") is not None):
+            out.append((c, A.arg_or_kw(c, 2, "errors"), A.arg_or_kw(c, 1, "encoding")))
+        elif nm == "TextIOWrapper":
+            out.append((c, A.arg_or_kw(c, 2, "errors"), A.arg_or_kw(c, 1, "encoding")))
+    return out
+
+
+def _tolerant(fa, call, err, enc) -> bool:
+    at = fa.nodes(call)[0]
+    e = _const_text(fa, err, at) if err is not None else None
+    if e is not None and e.lower() in TOLERANT_ERRORS:
+        return True
+    n = _const_text(fa, enc, at) if enc is not None else None
+    return n is not None and n.lower().replace(" ", "") in TOTAL_ENCODINGS
+
+
+def _decode_error_absorbed(ck, fa, node) -> bool:
+    """`node` runs inside a try whose first handler matching UnicodeDecodeError does not let it (or another non-I/O error) out."""
+    for t in _try_around(fa, node):
+        for h in t.handlers:
+            ts = [] if h.type is None else (h.type.elts if isinstance(h.type, ast.Tuple) else [h.type])
+            names = [A.norm(x).split(".")[-1] for x in ts]
+            if h.type is not None and not any(n in DECODE_ERROR_NAMES for n in names):
+                continue
+            ok = True
+            for st in ast.walk(h):
+                if isinstance(st, ast.Raise):
+                    exc = st.exc.func if isinstance(st.exc, ast.Call) else st.exc
+                    if exc is None or not _is_oserror_class(ck, (A.norm(exc) or "").split(".")[-1]):
+                        ok = False
+            return ok        # the first matching handler decides
+    return False
+
+
+def _handle_read_calls(fa, opencall):
+    """Where the text of a handle opened by `opencall` is actually decoded: the read calls / iterations on the handle."""
+    names = set()
+    p = fa.pm.get(opencall)
+    if isinstance(p, ast.withitem) and isinstance(p.optional_vars, ast.Name):
+        names.add(p.optional_vars.id)
+    st = fa.stmt_of(opencall)
+    if isinstance(st, ast.Assign) and st.value is opencall:
+        names |= {t.id for t in st.targets if isinstance(t, ast.Name)}
+    out = []
+    for c in fa.calls():
+        rv = A.call_recv(c)
+        if A.call_attr(c) in _HANDLE_READS and isinstance(rv, ast.Name) and rv.id in names and fa.nodes(c):
+            out.append(c)
+        elif isinstance(c.func, ast.Name) and c.func.id in ("next", "list", "tuple", "sorted") and c.args and isinstance(c.args[0], ast.Name) and c.args[0].id in names and fa.nodes(c):
+            out.append(c)
+    for f in fa.stmts(ast.For):
+        if isinstance(f.iter, ast.Name) and f.iter.id in names:
+            out.append(f)
+    return out
+
+
+def _protected(ck, fa, points, depth=2) -> bool:
+    """Every point is inside an absorbing try here, or every call of this function (inside the storage layer) is."""
+    if points and all(_decode_error_absorbed(ck, fa, p_) for p_ in points):
+        return True
+    if depth <= 0:
+        return False
+    sites = ck.cg.call_sites_of(lambda call, cands: any(f.qual == fa.qual for f in cands))
+    sites = [(fi, call) for (fi, call, _c) in sites if fi.qual != fa.qual]
+    if not sites:
+        return False
+    for (fi, call) in sites:
+        f2 = FA(ck, fi)
+        if not f2.nodes(call) or not _protected(ck, f2, [call], depth - 1):
+            return False
+    return True
+
+
+def check_pointer_decoding(ck):
+    R = "C08.R8"
+    ck.rule(R, "a pointer file cut short inside a multi-byte character reads as a pointer that designates nothing: wherever the "
+               "filesystem data source reads a pointer back as text, undecodable bytes cannot raise (tolerant errors= policy on the "
+               "open / the decode, or the decoding error is caught)", 1)
+    mod = ck.repo.module("storage_filesystem")
+    funcs = [m for c in mod.all_classes() for m in c.methods.values()] + list(getattr(mod, "functions", {}).values())
+    found = 0
+    for fi in funcs:
+        src = ast.dump(fi.node)
+        if "open" not in src and "read_" not in src and "FileIO" not in src:
+            continue
+        fa = FA(ck, fi)
+        reads = _pointer_reads(ck, fa)
+        for (c, kind, err, enc) in reads:
+            found += 1
+            if kind == "text":
+                ok = _tolerant(fa, c, err, enc) or _protected(ck, fa, _handle_read_calls(fa, c) or [c])
+                why = "opened as text with strict decoding"
+            else:
+                decs = _decoders(fa)
+                holder = fa
+                if not decs:
+                    # the bytes leave this function undecoded: they become text in its callers
+                    for (fi2, _call, _c) in ck.cg.call_sites_of(lambda call, cands: any(f.qual == fa.qual for f in cands)):
+                        f2 = FA(ck, fi2)
+                        if _decoders(f2):
+                            holder, decs = f2, _decoders(f2)
+                            break
+                fsdec = [k for k in fa.calls("fsdecode") if fa.nodes(k)]
+                ck.need(decs or fsdec, "%s reads a pointer file as bytes, but where those bytes become a path cannot be found" % fa.qual)
+                ok = all(_tolerant(holder, d, e_, n_) or _protected(ck, holder, [d]) for (d, e_, n_) in decs)
+                why = "read as bytes and decoded strictly"
+            ck.ob(R, fa.key(c, "undecodable-pointer-cannot-raise"), ok,
+                  "a pointer with undecodable bytes reads as a path that does not exist" if ok else
+                  "the pointer file is %s and nothing catches the error: a link truncated in the middle of a multi-byte character (non-ASCII "
+                  "store path or key, crash or ENOSPC during the link write) raises UnicodeDecodeError -- a ValueError, which none of the "
+                  "I/O fallbacks absorb -- so every later call of the function raises and it is never memoized again" % why, fa.where(c))
+    ck.need(found, "the filesystem data source never reads a pointer file back: cannot place the pointer readers")
+
+
 def check(ck):
     from .memo import check_new_memo_tables
     ck.run(check_new_memo_tables, ck, "C08.M1", ('storage_base', 'storage_filesystem'))
@@ -1803,4 +2181,5 @@ def check(ck):
     ck.run(check_recovery, ck)
     ck.run(check_readers_validate, ck)
     ck.run(check_complete_or_raise, ck)
+    ck.run(check_pointer_decoding, ck)
     ck.run(check_attempt_not_remembered, ck)
